@@ -106,11 +106,8 @@ def run(ctx):
     else:
         B = an.of(F, ss[0])
         writes = {}
-        for bb in sorted(B.body.reachable):
-            for si, st in enumerate(B.body.stmts(bb)):
-                if st["k"] == "assign" and st["lhs"]["l"] == 1 and st["lhs"].get("p") and st["lhs"]["p"][0] == "*":
-                    f = st["lhs"]["p"][1]
-                    writes.setdefault(f.get("n"), []).append(B.tb.rvalue(st["rv"], (bb, si), st))
+        for (_bb, _si, fname_, val) in an.writes_through(B, 1):
+            writes.setdefault(fname_, []).append(val)
         newlen = ("cast", "IntToInt", ("arg", 2), "u32")
         g_len = len(writes.get("length", [])) == 1 and N(writes["length"][0]) == newlen
         g_ck = False
